@@ -7,6 +7,7 @@ import (
 	"os"
 	"strings"
 	"sync"
+	"time"
 
 	"github.com/oasisprotocol/oasis-core/go/common/crypto/hash"
 	"github.com/oasisprotocol/oasis-core/go/storage/mkvs/checkpoint"
@@ -304,6 +305,10 @@ func runC12Conc(r *ev.Run) {
 		os.RemoveAll(dir)
 		r.Set("race_rule", "free-running race-detector pass over the concurrency scenarios of the conc phase (same thread bodies as ordinary goroutines in a -race build); complements the cooperative exploration, which cannot see unsynchronised accesses between scheduling points")
 		r.Finish()
+	}
+	if r.Thorough() && r.Deadline.IsZero() {
+		// internal deadline: an unfinished enumeration is reported as exhaustive=false, not as a failure
+		r.Deadline = r.Start.Add(13 * time.Minute)
 	}
 	r.Fork(ev.Workers())
 	scs := c12concScenarios(r, dir)
